@@ -1018,6 +1018,19 @@ def trait_section(name, delegate, methods, async_trait=False, generic=False, sup
         gen = "<const K: u16, T: Fp>" if generic else "<const K: u16>"
         text += f"{cfg}{at}impl{gen} {name}{targ} for App<K> {{\n" + "".join(
             self_impl_fn_text(m, f"{m.fn_id} + K") for m in methods) + "}\n"
+        if dual:
+            # the application ALSO hands out a decoy provider through AsRef / Borrow: reaching it
+            # (function id 60004) means the Self selector was not honoured
+            field = f"decoy_{name.lower()}"
+            APP_FIELDS.append(field)
+            text += f"{cfg}impl {name} for Prov {{\n"
+            for m in methods:
+                ps = ["&self"] + [p.sig(i, m.name) for i, p in enumerate(m.params)]
+                text += (f"    fn {m.name}{method_generics(m)}({', '.join(ps)}){RET_TEXT[m.ret]} {{\n        let __f = sim::enter(60004, sim::addr(self), &[]);\n"
+                         + "\n".join("        " + l for l in ret_tail(m, "")) + "\n    }\n")
+            text += "}\n"
+            text += (f"{cfg}impl<const K: u16> AsRef<dyn {name}> for App<K> {{\n    fn as_ref(&self) -> &(dyn {name} + 'static) {{\n        &self.{field}\n    }}\n}}\n"
+                     f"{cfg}impl<const K: u16> ::core::borrow::Borrow<dyn {name}> for App<K> {{\n    fn borrow(&self) -> &(dyn {name} + 'static) {{\n        &self.{field}\n    }}\n}}\n")
         for m in methods:
             m.recv_expr = "sim::addr(app.as_ref())"
             m.lookups = 0
@@ -1163,6 +1176,11 @@ trait_section("PlainSelfRef", "self", [
     Fn("psr_other", SELF, ["u64", "name=other:selfref"]),
     Fn("apsr_this", SELF, ["name=this:selfref", "u64"], is_async=True),
 ])
+trait_section("PlainDual", "self", [
+    Fn("pdu1", SELF, ["u64", "u64"]),
+    Fn("pdu_lt", SELF, ["refa", "u64"], ret="refarg"),
+    Fn("pdu_unit", SELF, ["u64"], ret="unit"),
+], supers=": 'static", dual=True)
 trait_section("ByRefDual", "ref", [
     Fn("rdu1", SELF, ["u64", "u64"]),
     Fn("rdu_lt", SELF, ["refa", "u64"], ret="refarg"),
